@@ -461,9 +461,10 @@ package dnsforward
 //@   property C08
 //@   requires dctx.proxyCtx != nil && dctx.proxyCtx.Req != nil && len(dctx.proxyCtx.Req.Question) > 0 && s.anonymizer != nil
 //@   requires !held(s.serverLock) && !rheld(s.serverLock)
-//@   callsite (net.IP).String(ip) requires anonymised-first: anonymised[arrayOf(ip)]
 //@   callsite (*github.com/AdguardTeam/AdGuardHome/internal/dnsforward.Server).logQuery(d, ip, t) requires only-if-wanted: okLog && anonymised[arrayOf(ip)]
-//@   callsite (*github.com/AdguardTeam/AdGuardHome/internal/dnsforward.Server).updateStats(d, ipStr, t) requires only-if-wanted: okCount
+//@   callsite (*github.com/AdguardTeam/AdGuardHome/internal/dnsforward.Server).updateStats(d, ipStr, t) requires only-if-wanted: okCount && ipStr == maskedAddrText
 //@   callsite (*github.com/AdguardTeam/AdGuardHome/internal/dnsforward.Server).shouldLog(host, qt, cl, ids) requires normalised-host: host == aghnet.NormalizeDomain(old(dctx.proxyCtx.Req.Question[0].Name))
+//@   callsite (*github.com/AdguardTeam/AdGuardHome/internal/dnsforward.Server).shouldLog(host, qt, cl, ids) requires client-by-real-address: len(ids) >= 1 && ids[len(ids) - 1] == rawAddrText
+//@   callsite (*github.com/AdguardTeam/AdGuardHome/internal/dnsforward.Server).shouldCountStat(host, qt, cl, ids) requires client-by-real-address: len(ids) >= 1 && ids[len(ids) - 1] == rawAddrText
 //@   callsite (*github.com/AdguardTeam/AdGuardHome/internal/dnsforward.Server).shouldCountStat(host, qt, cl, ids) requires normalised-host: host == aghnet.NormalizeDomain(old(dctx.proxyCtx.Req.Question[0].Name))
 //@   modifies *
